@@ -172,6 +172,36 @@ class Batch:
             t.join()
 
 
+def real_binary_smoke(prop, scratch):
+    """Anchors the one stub boundary of the CLI engine (main(): error -> exit status 1) with the real
+    binary: builtin-only commands, no simulated parts. Returns (ok, details)."""
+    repo = os.environ.get("VERIF_REPO", "/repo")
+    binp = os.path.join(BUILD, "taskctl-real")
+    env = dict(os.environ, GOFLAGS="-mod=mod", GOPROXY="off", GOSUMDB="off")
+    p = subprocess.run(["go", "build", "-o", binp, "./cmd/taskctl"], cwd=repo, env=env, stdout=subprocess.PIPE, stderr=subprocess.STDOUT, text=True)
+    if p.returncode != 0:
+        return None, {"error": "build of the real binary failed", "output": p.stdout[-800:]}
+    d = os.path.join(scratch, "smoke")
+    os.makedirs(d, exist_ok=True)
+    cfg = os.path.join(d, "tasks.yaml")
+    open(cfg, "w").write("tasks:\n  ok1:\n    command: echo ran-ok1\n  bad:\n    command:\n      - echo ran-bad\n      - exit 3\n  ok2:\n    command: echo ran-ok2\n"
+                         "pipelines:\n  pbad:\n    - task: ok1\n    - task: bad\n      depends_on: [ok1]\n")
+    cases = [(["ok1"], 0, ["ran-ok1"], []), (["bad"], 1, ["ran-bad"], []), (["ok1", "bad", "ok2"], 1, ["ran-ok1", "ran-bad"], ["ran-ok2"]),
+             (["ok1", "ok2"], 0, ["ran-ok1", "ran-ok2"], []), (["pbad", "ok2"], 1, ["ran-bad"], ["ran-ok2"]), (["run", "ok2", "--", "bad"], 0, ["ran-ok2"], ["ran-bad"])]
+    out = []
+    ok = True
+    for args, want_rc, must, must_not in cases:
+        try:
+            q = subprocess.run([binp, "-c", cfg, "--output", "raw"] + args, cwd=d, stdout=subprocess.PIPE, stderr=subprocess.PIPE, text=True, timeout=30, stdin=subprocess.DEVNULL)
+            rc, so = q.returncode, q.stdout
+        except subprocess.TimeoutExpired:
+            rc, so = -9, ""
+        good = rc == want_rc and all(m in so for m in must) and not any(m in so for m in must_not)
+        out.append({"argv": args, "exit": rc, "want_exit": want_rc, "ok": good})
+        ok = ok and good
+    return ok, {"cases": out}
+
+
 def load_known():
     p = os.path.join(VERIF, "known_findings.json")
     if not os.path.exists(p):
@@ -496,6 +526,19 @@ def main():
             reported.append({"rule": "crash", "replay": path, "msg": v["msg"], "count": len(crash_viol)})
             exit_code = 1
 
+        smoke = None
+        if spec.get("real_binary_smoke"):
+            sok, smoke = real_binary_smoke(prop, scratch)
+            if sok is None:
+                harness_errors.append({"type": "smoke-build-failed", "detail": smoke})
+            elif not sok:
+                path = os.path.join(OUT, "replays", prop, "real-binary-smoke.json")
+                write_replay(path, {"property": prop, "engine": "real-binary", "violation": {"prop": prop, "rule": "real-binary-exit-status", "msg": "the real taskctl binary does not exit 0 exactly when every target succeeded / runs a later target after a failed one"}, "cases": smoke["cases"]})
+                print("violation: rule=real-binary-exit-status %s" % json.dumps([c for c in smoke["cases"] if not c["ok"]])[:600], flush=True)
+                print("VIOLATION property=%s replay=%s" % (prop, path), flush=True)
+                reported.append({"rule": "real-binary-exit-status", "replay": path, "msg": "real binary smoke failed", "count": 1})
+                exit_code = 1
+
         for kid, (k, n) in sorted(known_hits.items()):
             print("KNOWN-FINDING: property=%s %s (%d runs)" % (prop, k["text"], n), flush=True)
 
@@ -547,6 +590,7 @@ def main():
                 "parts": part_stats,
                 "other_property_observations": others,
                 "real_vs_stub": REAL_VS_STUB,
+                "real_binary_smoke": smoke,
                 "workers": NWORKERS,
                 "harness_errors": len(harness_errors),
                 "worker_crashes": len(all_crashes),
